@@ -51,7 +51,8 @@ func ruleC08(c *Check) {
 	c.contextDeleters("C08")
 	c.queueDeleters("C08")
 	// "once block h+t has ended it is no longer pending": pending requests are deactivated by the expiry of their batch, which is queued on every path that issues them
-	c.newBatchRules("C08", map[string]bool{"issue-without-expiry": true})
+	c.newBatchRules("C08", map[string]bool{"issue-without-expiry": true, "issue-after-pause": true})
+	c.contextFieldRules("C08", map[string]bool{"state": true, "counts": true, "batchstate": true})
 }
 
 func ruleC09(c *Check) {
@@ -61,6 +62,7 @@ func ruleC09(c *Check) {
 	c.startRules("C09")
 	c.contextDeleters("C09")
 	c.callbackRules("C09")
+	c.moduleServiceRunning("C09.7")
 }
 
 func ruleC10(c *Check) {
@@ -68,10 +70,12 @@ func ruleC10(c *Check) {
 	c.expiredBatchRules("C10", map[string]bool{"continuation": true, "next-height": true, "dequeue-before-enqueue": true, "dequeue": true})
 	c.contextFieldRules("C10", map[string]bool{"update": true, "counter": true})
 	c.requestValidation("C10.3")
+	c.updatesTakeEffect("C10.7")
 	c.queueDeleters("C10")
 	c.heightSkeletons("C10.2")
 	c.paramGettersExact("C10.3", "KeyMaxRequestTimeout")
 	c.newBatchRules("C10", map[string]bool{"issue-without-expiry": true})
+	c.keyGrammar("C10.6", map[string]bool{"0x09": true, "0x10": true, "0x11": true, "0x12": true})
 }
 
 func ruleC11(c *Check) {
@@ -89,6 +93,8 @@ func ruleC11(c *Check) {
 	c.moduleServicePath("C11.6")
 	c.expiredBatchBinding("C11.3")
 	c.moduleWiring("C11.8", map[string]bool{"endblock": true})
+	c.keyGrammar("C11.7", map[string]bool{"0x09": true, "0x10": true, "0x11": true, "0x12": true})
+	c.resetConstants("C11.9")
 }
 
 func ruleC12(c *Check) {
@@ -114,7 +120,7 @@ func ruleC16(c *Check) {
 	c.respondRules("C16")
 	c.expiryScanGuard("C16.1")
 	c.feeWriters("C16")
-	c.contextFieldRules("C16", map[string]bool{"counter": true, "state": true, "batchstate": true})
+	c.contextFieldRules("C16", map[string]bool{"counter": true, "state": true, "batchstate": true, "counts": true})
 	c.heightSkeletons("C16.3")
 	c.startRules("C16")
 	c.moduleServicePath("C16.5")
